@@ -38,6 +38,7 @@ def valToBytes (v : Val) : List Nat :=
   | .num x => numToBytes x
   | .str s => s
   | .recv => [63]
+  | .obj _ => [63]
 
 def env : Env := { pn := OttoVerif.PN.parseNumber, ts := valToBytes }
 
@@ -50,6 +51,7 @@ def val? (t : String) : Option Val :=
   | ['T'] => some (.bool true)
   | ['F'] => some (.bool false)
   | ['R'] => some .recv
+  | 'O' :: r => (String.ofList r).toNat?.map .obj
   | 'd' :: r => (f64? (String.ofList r)).map .num
   | 's' :: r => (bytes? (String.ofList r)).map .str
   | _ => none
@@ -78,6 +80,23 @@ def elems? (t : String) : Option (List (Option Val)) :=
 
 def vals? (t : String) : Option (List Val) := (splitList t).mapM val?
 
+/-- one scripted conversion `<eff>~<res>`: eff ∈ `-` | `p<val>` | `l<val>` | `d<k>`, res ∈ value | `!T` | `!R` -/
+def conv? (t : String) : Option Conv :=
+  match t.splitOn "~" with
+  | [e, r] => do
+    let eff ← match e.toList with
+      | ['-'] => some Eff.none
+      | 'p' :: x => (val? (String.ofList x)).map Eff.push
+      | 'l' :: x => (val? (String.ofList x)).map Eff.setLen
+      | 'd' :: x => (String.ofList x).toNat?.map Eff.del
+      | _ => none
+    if r = "!T" then pure { eff := eff, res := none }
+    else if r = "!R" then pure { eff := eff, res := none, throwRange := true }
+    else do let v ← val? r; pure { eff := eff, res := some v }
+  | _ => none
+
+def script? (t : String) : Option (List Conv) := (splitList t).mapM conv?
+
 def protos? (t : String) : Option (List (Nat × Val)) :=
   (splitList t).mapM (fun e => match e.splitOn ":" with
     | [i, v] => do let i ← i.toNat?; let v ← val? v; pure (i, v)
@@ -92,6 +111,7 @@ def valOut : Val → String
   | .num x => "d" ++ f64Out x
   | .str s => "s" ++ bytesOut s
   | .recv => "R"
+  | .obj id => "O" ++ toString id
 
 def b01 (b : Bool) : String := if b then "1" else "0"
 
@@ -278,6 +298,13 @@ def step (S : Side) (o : Obj) (t : String) : Option (String × Obj) :=
     match f { o := o, rets := rets } with
     | .ok r s => pure (retOut r ++ logOut s.log, s.o)
     | .err e s => pure (errOut e ++ logOut s.log, s.o)
+  | ["call", m, args, rets, script] => do
+    let rets ← vals? rets
+    let script ← script? script
+    let f ← S.method o.proto m args
+    match f { o := o, rets := rets, script := script } with
+    | .ok r s => pure (retOut r ++ logOut s.log, s.o)
+    | .err e s => pure (errOut e ++ logOut s.log, s.o)
   | _ => none
 
 def runSteps (S : Side) : Obj → List String → List String → Option (List String × Obj)
@@ -291,6 +318,13 @@ def initObj (es : List (Option Val)) (ps : List (Nat × Val)) : Obj :=
     ((List.range es.length).zip es).filterMap fun (i, e) => e.map fun v => (Key.idx i, ⟨v, true, true, true⟩)
   { isArr := true, ext := true, props := props, proto := ps }
 
+/-- an array-like: a plain object with an ordinary `length` property (absent for `-`) and index properties -/
+def initLike (len : Option Val) (es : List (Option Val)) : Obj :=
+  let lp : List (Key × PropD) := match len with | some v => [(Key.length, ⟨v, true, true, true⟩)] | none => []
+  let props : List (Key × PropD) := lp ++
+    ((List.range es.length).zip es).filterMap fun (i, e) => e.map fun v => (Key.idx i, ⟨v, true, true, true⟩)
+  { isArr := false, ext := true, props := props, proto := [] }
+
 def runHist (S : Side) (o : Obj) (steps : List String) : String :=
   match runSteps S o steps [] with
   | some (rs, o') => "|".intercalate (rs ++ [dump o'])
@@ -301,17 +335,49 @@ def runHist (S : Side) (o : Obj) (steps : List String) : String :=
 def addDev (acc : List String) (d : String) : List String := if acc.contains d then acc else acc ++ [d]
 
 /-- regions of one step, evaluated on the object the *model* has reached before the step -/
+def isObj : Val → Bool
+  | .obj _ => true
+  | _ => false
+
 def stepDev (o : Obj) (t : String) : List String :=
   match t.splitOn "/" with
-  | ["call", "splice", argTok, _] =>
+  | "call" :: m :: argTok :: _ :: rest =>
     let O := modelOps env
-    let s : St := { o := o }
-    let len := O.len s
+    let script : List Conv := match rest with | [sc] => (script? sc).getD [] | _ => []
+    let s : St := { o := o, script := script }
+    let lenObj : Bool := isObj (objGet o .length)
+    let (name, callable) := splitBang m
     match vals? argTok with
     | some args =>
-      let start := (valueToRangeIndex env (argAt args 0) len false).toNat
-      -- ES5.1 letter: a missing deleteCount is ToInteger(undefined) = 0; otto (and ES2015) remove up to the end
-      if args.length = 1 ∧ len - start > 0 then ["splice_one_argument"] else []
+      (if name = "splice" then
+        -- ES5.1 letter: a missing deleteCount is ToInteger(undefined) = 0; otto (and ES2015) remove up to the end
+        match readLen O s with
+        | .ok len s1 =>
+          match O.conv (argAt args 0) s1 with
+          | .ok p _ =>
+            let start := (valueToRangeIndex env p len false).toNat
+            if args.length = 1 ∧ len - start > 0 then ["splice_one_argument"] else []
+          | .err _ _ => []
+        | .err _ _ => []
+       else [])
+      ++ (let hasEff : Bool := match script.head? with
+            | some c => (match c.eff with | .none => false | _ => true)
+            | none => false
+          if name = "join" ∧ isObj (argAt args 0) ∧ (lenObj ∨ hasEff)
+          then ["join_separator_before_length"] else [])
+      ++ (if !callable ∧ lenObj ∧ ["every", "some", "forEach", "map", "filter", "reduce", "reduceRight"].contains name
+          then ["callable_before_length"] else [])
+      ++ (let len0 : Bool := match readLen O s with | .ok len _ => len == 0 | .err _ _ => false
+          if name = "lastIndexOf" ∧ args.length > 1 ∧ isObj (argAt args 1) ∧ len0
+          then ["lastIndexOf_converts_fromIndex_of_empty"] else [])
+      ++ (if name = "sort" then
+            let len := match readLen O s with | .ok len _ => len | .err _ _ => 0
+            let strs := (List.range len).filterMap fun k =>
+              if O.has s k ∧ O.get s k ≠ .undef then some (env.ts (O.get s k)) else none
+            if strs.any (fun x => strs.any (fun y =>
+                bytesLt x y != bytesLt (OttoVerif.Str.unitsOfBytes x) (OttoVerif.Str.unitsOfBytes y)))
+            then ["sort_code_point_order"] else []
+          else [])
     | none => []
   | _ => []
 
@@ -357,7 +423,16 @@ def handle (ws : List String) : String :=
     | some es, some ps =>
       let o := initObj es ps
       reply (runHist modelSide o steps) (runHist specSide o steps) (devOut (histDev o steps))
-    | _, _ => "bad-op"
+    | _, _ =>
+      -- `o=<length|->|<elems>`: an array-like receiver
+      match (stripPrefix "o=" a).map (·.splitOn "|") with
+      | some [l, e] =>
+        match (if l = "-" then some none else (val? l).map some), elems? e with
+        | some len, some es =>
+          let o := initLike len es
+          reply (runHist modelSide o steps) (runHist specSide o steps) (devOut (histDev o steps))
+        | _, _ => "bad-op"
+      | _ => "bad-op"
   | _ => "bad-op"
 
 end OttoVerif.C08.Driver
